@@ -768,13 +768,13 @@ func (j *judgeCtx) pendingAtEnd() int {
 	return n
 }
 
-// racedByResumer: a Resume/Restart/Bind from another goroutine overlapped a pausing or
+// racedByResumer: a Resume/Restart from another goroutine overlapped a pausing or
 // stopping call before c returned (c itself included). Such a pair switches dispatching
 // back on underneath the barrier; what runs afterwards is its leftover (a later Stop on
 // the then "Stopped" worker returns at once while those jobs still run).
 func (j *judgeCtx) racedByResumer(c *Call) bool {
 	for _, o := range j.lcalls {
-		if !(o.K == opResume || o.K == opRestart || o.K == opBind) || o.Inv >= c.Ret {
+		if !(o.K == opResume || o.K == opRestart) || o.Inv >= c.Ret {
 			continue
 		}
 		for _, b := range j.lcalls {
@@ -812,7 +812,7 @@ func (j *judgeCtx) checkPause() {
 			if o.Inv < c.Ret && (o.Ret == 0 || o.Ret > c.Inv) {
 				clean = false
 			}
-			if o.Inv > c.Ret && o.Inv < end && (o.K == opResume || o.K == opRestart || o.K == opBind || o.K == opCancelCtx) {
+			if o.Inv > c.Ret && o.Inv < end && (o.K == opResume || o.K == opRestart || o.K == opCancelCtx) {
 				end = o.Inv
 			}
 		}
